@@ -8,7 +8,7 @@
 From Coq Require Import List Arith.
 From EN Require Import Lib.Bytes Frame.Framer Frame.ReadUntil Frame.BufReadUntil Stream.Consumer Stream.SpecDecode
   Stream.Endpoint Stream.EndpointSpec Proofs.C03_proofs Proofs.C03_fixed Proofs.C03_readuntil Proofs.C03_bufreaduntil
-  Proofs.C03_instances.
+  Conc.RecvLock Proofs.C03_lock Proofs.C03_instances.
 Import ListNotations.
 
 (* For every transport oracle (chunking, silences, transport errors, position of the peer's close, even data after the
@@ -303,6 +303,79 @@ Proof.
   - vm_compute. apply (safe_frame _ _ _ 1); [reflexivity|repeat constructor|].
     apply (safe_frame _ _ _ 1); [reflexivity|repeat constructor|]. apply safe_end; [reflexivity|vm_compute; repeat constructor].
 Qed.
+
+(* ==================================================================================================================
+   The blocking TCP client's receive lock (Conc/RecvLock.v): two threads call recv_packet(timeout=None) on one client,
+   the scheduler is arbitrary ([sch] = which thread runs next; a thread is preempted when it waits for the lock or is
+   parked inside a transport call).  [Hprog]: a transport read takes at least one byte when bytes are available. *)
+
+(* The calls, in the order they RETURN, have exactly the results of the same number of calls made one after the other
+   by a single thread: concurrent calls are serialised. *)
+Theorem recv_lock_serialises :
+  forall (P C : Type) (M : machine P C),
+    (forall c ch c' r n room, mtake M c ch = Some (c', r, n, room) -> ch <> [] -> 1 <= n) ->
+    forall (c0 : C) (o : oracle) (na nb : nat) (sch : list bool),
+      let s := trun M (tinit c0 o na nb) sch in
+      map snd (rev (t_log s)) =
+      firstn (length (t_log s)) (results (run_calls M Blocking (linit c0) o (repeat None (na + nb)))).
+Proof. exact (@lock_serialises). Qed.
+Print Assumptions recv_lock_serialises.
+
+(* At most one thread is inside the receive (parked in the transport) at any time, and it is the lock holder. *)
+Theorem recv_lock_mutex :
+  forall (P C : Type) (M : machine P C),
+    (forall c ch c' r n room, mtake M c ch = Some (c', r, n, room) -> ch <> [] -> 1 <= n) ->
+    forall (c0 : C) (o : oracle) (na nb : nat) (sch : list bool),
+      let s := trun M (tinit c0 o na nb) sch in
+      forall (i : bool) (n : nat), tget s i = TParked n ->
+        t_lock s = Some i /\ (forall m, tget s (negb i) <> TParked m).
+Proof. exact (@lock_mutex). Qed.
+Print Assumptions recv_lock_mutex.
+
+(* Hence recv_sequence for two threads and every schedule: the returned calls deliver the events of the stream in order,
+   then ConnectionAborted — nothing is delivered after end-of-stream, nothing received before the close is withheld. *)
+Theorem recv_sequence_two_threads :
+  forall (P C : Type) (M : machine P C),
+    (forall c ch c' r n room, mtake M c ch = Some (c', r, n, room) -> ch <> [] -> 1 <= n) ->
+    forall (spec : bytes -> list (nres P)) (R : C -> bytes -> nat -> Prop), consumer_ok M spec R ->
+    forall c0 : C, R c0 [] 0 ->
+    forall (o : oracle) (na nb : nat) (sch : list bool) (j : nat) (r : rres P),
+      nth_error (delivered (map snd (rev (t_log (trun M (tinit c0 o na nb) sch))))) j = Some r ->
+      r = expected (spec (stream_of o)) j.
+Proof. exact (@threads_recv_sequence). Qed.
+Print Assumptions recv_sequence_two_threads.
+
+Theorem recv_sequence_two_threads_read_until :
+  forall (P : Type) (sep : bytes) (limit : nat) (keep_end : bool) (dec : decoder P) (bufsize : nat),
+    sep <> [] -> 0 < bufsize ->
+  forall (o : oracle) (na nb : nat) (sch : list bool) (j : nat) (r : rres P),
+    safe sep limit (stream_of o) ->
+    nth_error (delivered (map snd (rev (t_log (trun (copy_machine (ru_framer sep limit keep_end dec) bufsize)
+                                               (tinit (cinit (ru_framer sep limit keep_end dec)) o na nb) sch))))) j = Some r ->
+    r = expected (fst (spec_events sep keep_end dec (stream_of o))) j.
+Proof. exact (@ru_threads_recv_sequence). Qed.
+Print Assumptions recv_sequence_two_threads_read_until.
+
+Theorem recv_sequence_two_threads_fixed_size :
+  forall (P : Type) (size : nat) (dec : decoder P) (bufsize : nat), 0 < size -> 0 < bufsize ->
+  forall (o : oracle) (na nb : nat) (sch : list bool) (j : nat) (r : rres P),
+    nth_error (delivered (map snd (rev (t_log (trun (copy_machine (rx_framer size dec) bufsize)
+                                               (tinit (cinit (rx_framer size dec)) o na nb) sch))))) j = Some r ->
+    r = expected (fx_spec size dec (stream_of o)) j.
+Proof. exact (@fx_threads_recv_sequence). Qed.
+Print Assumptions recv_sequence_two_threads_fixed_size.
+
+(* non-vacuity: LF framing, "A\nB\n" in one segment then the close; thread 0 starts and parks, thread 1 starts while
+   thread 0 is parked and waits for the lock; thread 0 is served: it returns A, thread 1 takes the lock and returns B from
+   the buffer without touching the transport; the third call reports end-of-stream. *)
+Example c03_two_threads_example :
+  let M := copy_machine (ru_framer [10%N] 16 false (fun b => Some b)) 64 in
+  let o := [TData [65;10;66;10]%N 0; TEof] in
+  let s1 := trun M (tinit (cinit _) o 2 1) [false; true] in
+  let s := trun M (tinit (cinit _) o 2 1) [false; true; false; true; false; false] in
+  (t_a s1, t_b s1, t_lock s1) = (TParked 1, TBlocked 0, Some false)
+  /\ rev (t_log s) = [(false, RecvPkt [65%N]); (true, RecvPkt [66%N]); (false, RecvAborted)].
+Proof. vm_compute. split; reflexivity. Qed.
 
 (* ---- non-vacuity: a concrete history.  size 2, identity codec, max_recv_size 3; the peer sends "ab" | silence |
    "cde" then closes inside the third frame; calls: timeout 0, timeout 0, None, None, timeout 5, None. *)
